@@ -235,7 +235,13 @@ static void step(void)
                  else { vh_op("vector_dup(#%d)", i); own(SPIF_VECTOR_DUP(v), T_VEC, pool[i].impl); vh_count("copy", 1); } } break;
 
     /* ---- maps */
-    case 32: case 33: if ((i = pick_kind(T_MAP)) >= 0 && vh_coin(12)) {       /* one and the same object handed in as key and as value: the map keeps two copies of its own */
+    case 32: case 33: if ((i = pick_kind(T_MAP)) >= 0 && vh_coin(10)) {       /* the pair form of set: the map takes copies, the caller keeps and deletes its own pair */
+                 spif_obj_t pk = new_label(), pv = (spif_obj_t) spif_str_new_from_ptr((spif_charptr_t) word());
+                 spif_objpair_t pr = spif_objpair_new_from_both(pk, pv);          /* (a pair holds copies of what it is made from) */
+                 vh_op("map_set(#%d, pair(%s, value), NULL) -- then the caller deletes its pair", i, vh_qs((char *) SPIF_STR_STR((spif_str_t) pk)));
+                 SPIF_MAP_SET((spif_map_t) pool[i].p, (spif_obj_t) pr, (spif_obj_t) NULL);
+                 SPIF_OBJ_DEL(pk); SPIF_OBJ_DEL(pv); spif_objpair_del(pr); vh_count("map_set_pair_form", 1); break; }
+             if (i >= 0 && vh_coin(12)) {       /* one and the same object handed in as key and as value: the map keeps two copies of its own */
                  spif_obj_t k = new_label();
                  vh_op("map_set(#%d, %s, the same object as value)", i, vh_qs((char *) SPIF_STR_STR((spif_str_t) k)));
                  SPIF_MAP_SET((spif_map_t) pool[i].p, k, k); SPIF_OBJ_DEL(k); vh_count("map_set_key_object_as_value", 1); break; }
